@@ -63,10 +63,16 @@ static ld tiny_of(int nt)
     return (nt == NT_F) ? std::ldexp(1.0L, -126 + 30) : (nt == NT_D) ? std::ldexp(1.0L, -1022 + 60) : std::ldexp(1.0L, -16382 + 70);
 }
 
+static ld huge_of(int nt)
+{
+    // 2^-8 of the largest finite number of the type
+    return (nt == NT_F) ? std::ldexp(1.0L, 120) : (nt == NT_D) ? std::ldexp(1.0L, 1016) : std::ldexp(1.0L, 16376);
+}
+
 static bool in_domain(int nt, ld v)
 {
     ld const a = std::fabs(v);
-    return a == 0 || (a >= tiny_of(nt) && a <= 1 / tiny_of(nt));
+    return a == 0 || (a >= tiny_of(nt) && a <= huge_of(nt));
 }
 
 void absorb(RunOut const& out, Report& rep)
@@ -183,6 +189,34 @@ void oracle_c02(Plan const& p, RunCtl const& ctl, std::vector<u64> const& seg_ca
                 (unsigned long long) k, (unsigned long long) rv.calls, (unsigned long long) N));
         }
 
+        if (N >= 1 && std::isfinite(rv.sum) && in_domain(p.nt, rv.sum / N) && in_domain(p.nt, rv.sumsq / N / N) &&
+            in_domain(p.nt, (rv.sum / N) * (rv.sum / N) / N))
+        {
+            ld const E = rv.sum / N;
+            if (!(std::fabs(rv.value - E) <= 4 * eps * std::fabs(E)))
+            {
+                rep.fail("C02", "value", key, fmt("iteration %llu: value=%.21Lg sum/N=%.21Lg",
+                    (unsigned long long) k, rv.value, E));
+            }
+
+            if (N >= 2 && std::isfinite(rv.sumsq))
+            {
+                ld const a = rv.sumsq / N, b = E * E;
+                ld const var = (a - b) / (N - 1);
+                ld const scale = (a + b) / (N - 1);
+                if (!(std::fabs(rv.variance - var) <= 16 * eps * scale))
+                {
+                    rep.fail("C02", "variance", key, fmt("iteration %llu: variance=%.21Lg reference=%.21Lg",
+                        (unsigned long long) k, rv.variance, var));
+                }
+                if (rv.variance >= 0 && !(std::fabs(rv.error - std::sqrt(rv.variance)) <= 4 * eps * rv.error))
+                {
+                    rep.fail("C02", "error", key, fmt("iteration %llu: error=%.21Lg sqrt(variance)=%.21Lg",
+                        (unsigned long long) k, rv.error, std::sqrt(rv.variance)));
+                }
+            }
+        }
+
         if (!out.ranks.empty() && !out.ranks[0].log_calls) continue;
 
         if (ic.recs.size() != N)
@@ -289,33 +323,6 @@ void oracle_c02(Plan const& p, RunCtl const& ctl, std::vector<u64> const& seg_ca
             }
         }
 
-        if (N >= 1 && std::isfinite(rv.sum) && in_domain(p.nt, rv.sum / N) && in_domain(p.nt, rv.sumsq / N / N) &&
-            in_domain(p.nt, (rv.sum / N) * (rv.sum / N) / N))
-        {
-            ld const E = rv.sum / N;
-            if (!(std::fabs(rv.value - E) <= 4 * eps * std::fabs(E)))
-            {
-                rep.fail("C02", "value", key, fmt("iteration %llu: value=%.21Lg sum/N=%.21Lg",
-                    (unsigned long long) k, rv.value, E));
-            }
-
-            if (N >= 2 && std::isfinite(rv.sumsq))
-            {
-                ld const a = rv.sumsq / N, b = E * E;
-                ld const var = (a - b) / (N - 1);
-                ld const scale = (a + b) / (N - 1);
-                if (!(std::fabs(rv.variance - var) <= 16 * eps * scale))
-                {
-                    rep.fail("C02", "variance", key, fmt("iteration %llu: variance=%.21Lg reference=%.21Lg",
-                        (unsigned long long) k, rv.variance, var));
-                }
-                if (rv.variance >= 0 && !(std::fabs(rv.error - std::sqrt(rv.variance)) <= 4 * eps * rv.error))
-                {
-                    rep.fail("C02", "error", key, fmt("iteration %llu: error=%.21Lg sqrt(variance)=%.21Lg",
-                        (unsigned long long) k, rv.error, std::sqrt(rv.variance)));
-                }
-            }
-        }
     }
 }
 
@@ -502,17 +509,31 @@ void oracle_c07_share(Plan const& p, ChkptView const& v, Report& rep)
 
             // bins whose relative importance underflows in T are outside what the code can resolve
             bool skip = false;
+            ld coarse = 0;   // relative resolution of the data if it is subnormal in the numeric type
             std::vector<ld> imp(B, 0.0L);
             ld total = 0;
             for (u64 b = 0; b != B; ++b)
             {
                 if (t[b] == 0) continue;
                 ld const r = t[b] / norm;
-                if (round_to(p.nt, r) == 0 || r >= 1 || !in_domain(p.nt, r) || !in_domain(p.nt, t[b]) ||
-                    !in_domain(p.nt, norm))
+                if (round_to(p.nt, r) == 0 || r >= 1 || !in_domain(p.nt, r) || norm > huge_of(p.nt))
                 {
                     skip = true;
                     break;
+                }
+                if (t[b] < tiny_of(p.nt))
+                {
+                    // smoothed data in (or close to) the subnormal range: the numeric type resolves it
+                    // with `bits` bits only; below 10 bits nothing can be said
+                    ld const denorm = (p.nt == NT_F) ? std::ldexp(1.0L, -149) : (p.nt == NT_D) ? std::ldexp(1.0L, -1074)
+                                                                                                 : std::ldexp(1.0L, -16445);
+                    int const bits = static_cast<int>(std::floor(std::log2(t[b] / denorm)));
+                    if (bits < 10)
+                    {
+                        skip = true;
+                        break;
+                    }
+                    coarse = std::max(coarse, std::ldexp(1.0L, -bits));
                 }
                 imp[b] = std::pow((r - 1.0L) / std::log(r), alpha);
                 total += imp[b];
@@ -545,7 +566,8 @@ void oracle_c07_share(Plan const& p, ChkptView const& v, Report& rep)
                 return cum[lo] + frac * imp[lo];
             };
 
-            ld const slack = 64.0L * B * epsT * total;
+            ld const slack = 64.0L * B * std::max(epsT, 16 * (1 + alpha) * coarse) * total;
+            if (coarse > 0) rep.probes["share-checked-subnormal-data"]++;
 
             for (u64 b = 1; b != B; ++b)
             {
@@ -627,6 +649,15 @@ void oracle_c08(Plan const& p, ChkptView const& v, Report& rep)
 
         if (rv.refined.size() != rv.weights.size()) continue;
 
+        // the property is about finite data; sums of squares that overflowed are outside it
+        bool finite_data = true;
+        for (ld a : rv.adj) finite_data = finite_data && std::isfinite(a) && a >= 0;
+        if (!finite_data)
+        {
+            rep.probes["refinement-skipped-non-finite-data"]++;
+            break;   // whatever follows was sampled with weights nothing can be said about
+        }
+
         // reference model of one refinement
         std::size_t const n = rv.weights.size();
         bool all_zero = true;
@@ -695,7 +726,10 @@ void oracle_c08(Plan const& p, ChkptView const& v, Report& rep)
             if (!(rv.adj[i] > 0)) continue;   // not constrained by the property
             // weights whose unnormalised value underflows in T are outside what the code can resolve
             if (round_to(p.nt, rv.weights[i] * std::pow(rv.adj[i], v.beta)) == 0) continue;
-            if (!in_domain(p.nt, ref[i]) || !in_domain(p.nt, rv.weights[i] * std::pow(rv.adj[i], v.beta))) continue;
+            {
+                ld const prod = rv.weights[i] * std::pow(rv.adj[i], v.beta);
+                if (!in_domain(p.nt, ref[i]) || prod < tiny_of(p.nt) || !std::isfinite(round_to(p.nt, prod))) continue;
+            }
             if (!(std::fabs(rv.refined[i] - ref[i]) <= tol * ref[i]))
             {
                 rep.fail("C08", "refinement-formula", key, fmt(
@@ -723,9 +757,13 @@ void oracle_c08(Plan const& p, ChkptView const& v, Report& rep)
 
     if (v.has_next && !v.results.empty())
     {
-        bool all_zero = true;
+        bool all_zero = true, finite = true;
+        for (auto const& r : v.results)
+        {
+            for (ld a : r.adj) finite = finite && std::isfinite(a);
+        }
         for (ld a : v.results.back().adj) all_zero = all_zero && (a == 0);
-        if (!all_zero) check_vector(v.next, "chkpt.channel_weights() after iteration", v.results.size() - 1);
+        if (!all_zero && finite) check_vector(v.next, "chkpt.channel_weights() after iteration", v.results.size() - 1);
     }
 }
 
@@ -1341,6 +1379,25 @@ void oracle_c19(Plan const& p, RunCtl const& ctl, RunOut const& out, ChkptView c
     auto state = [&](ResultView const& rv) -> std::vector<ld> const& {
         return (p.integ == VEGAS) ? rv.pdf : rv.weights;
     };
+
+    // the refinement runs under the checkpoint's alpha / beta / minimum weight: these are the user's,
+    // in every incarnation of the run
+    if (p.scn != "durable")
+    {
+        if (p.integ == VEGAS && !same_bits(v.alpha, round_to(p.nt, p.alpha)))
+        {
+            rep.fail("C19", "adaptation-parameter-changed", key, fmt("the checkpoint's alpha is %.21Lg, the run was started with %.21Lg",
+                v.alpha, round_to(p.nt, p.alpha)));
+            return;
+        }
+        if (p.integ == MULTI && (!same_bits(v.beta, round_to(p.nt, p.beta)) || !same_bits(v.minw, round_to(p.nt, p.minw))))
+        {
+            rep.fail("C19", "adaptation-parameter-changed", key, fmt(
+                "the checkpoint's beta / minimum weight are %.21Lg / %.21Lg, the run was started with %.21Lg / %.21Lg",
+                v.beta, v.minw, round_to(p.nt, p.beta), round_to(p.nt, p.minw)));
+            return;
+        }
+    }
 
     // the chain of recorded states
     for (u64 k = std::max<u64>(out.base, 1); k < v.results.size(); ++k)
